@@ -24,6 +24,11 @@ func (g *sgen) postSchema(depth int) map[string]interface{} {
 	case depth <= 0 || r < 25:
 		t := g.pick([]string{"string", "integer", "boolean", "number"})
 		s["type"] = t
+		if g.p(20) {
+			s["type"] = []interface{}{t, "null"} // a present member holding null is still present (and described)
+		} else if g.p(8) {
+			delete(s, "type")
+		}
 		if g.p(40) {
 			switch t {
 			case "string":
@@ -47,14 +52,19 @@ func (g *sgen) postSchema(depth int) map[string]interface{} {
 		if g.p(25) {
 			s["patternProperties"] = map[string]interface{}{g.pick([]string{"^x", "^a", "z$"}): g.postSchema(depth - 1)}
 		}
-		switch g.rng.Intn(4) {
+		switch g.rng.Intn(5) {
 		case 0:
 			s["additionalProperties"] = g.postSchema(depth - 1)
 		case 1:
 			s["additionalProperties"] = true
+		case 2:
+			s["additionalProperties"] = false // closed object: pattern-matched members are still described
 		}
 		if g.p(20) {
 			s["default"] = map[string]interface{}{"a": 1}
+		}
+		if g.p(12) {
+			s["not"] = map[string]interface{}{"type": g.pick([]string{"string", "array"})} // satisfied by every object
 		}
 	case r < 88:
 		s["type"] = "array"
@@ -92,6 +102,7 @@ func genPost(rng *rand.Rand, idx int, tier string) Case {
 	// look for a valid instance: schema-directed construction, a few attempts
 	for try := 0; try < 6; try++ {
 		v = round15(g.instanceFor(s, s, 4))
+		g.addPatternMembers(s, v, 3)
 		if m, ok := v.(map[string]interface{}); ok && g.p(60) {
 			m[g.pick([]string{"x1", "zz", "extra", "a", "az"})] = g.anyValue(1) // undescribed members for pruning
 			if inner, ok := m["a"].(map[string]interface{}); ok && g.p(50) {
@@ -135,4 +146,40 @@ func runPost(c Case) interface{} {
 	post.ApplyDefaults(res4)
 	out["defaultedRecycled"] = res4.Data()
 	return out
+}
+
+var patternWitness = map[string]string{"^x": "x1", "^a": "az", "z$": "zz"}
+
+// addPatternMembers adds, at every object of the instance, members whose names match the schema's pattern properties
+func (g *sgen) addPatternMembers(s map[string]interface{}, v interface{}, depth int) {
+	m, ok := v.(map[string]interface{})
+	if !ok || depth <= 0 {
+		if l, ok := v.([]interface{}); ok {
+			if it, ok := s["items"].(map[string]interface{}); ok {
+				for _, e := range l {
+					g.addPatternMembers(it, e, depth-1)
+				}
+			}
+		}
+		return
+	}
+	if pp, ok := s["patternProperties"].(map[string]interface{}); ok {
+		for _, pat := range sortedKeys(pp) {
+			name := patternWitness[pat]
+			if ps, ok := pp[pat].(map[string]interface{}); ok && name != "" && g.p(70) {
+				if _, has := m[name]; !has {
+					m[name] = round15(g.instanceFor(ps, s, 2))
+				}
+			}
+		}
+	}
+	if props, ok := s["properties"].(map[string]interface{}); ok {
+		for _, k := range sortedKeys(props) {
+			if ps, ok := props[k].(map[string]interface{}); ok {
+				if sub, has := m[k]; has {
+					g.addPatternMembers(ps, sub, depth-1)
+				}
+			}
+		}
+	}
 }
